@@ -24,8 +24,8 @@ RULE = (
     'straddling either end, entirely below, entirely above, wide, single '
     'cell) x {grid, grid with every cell halved, grid with every cell cut in '
     'three} x 3 requested means (whole-number grids also as int64 and '
-    'float32 arrays), and every set x every sub-grid (>= 2 '
-    'levels) of a 10-level (thorough: 13-level) menu reaching below, into '
+    'float32 arrays), and every set x every sub-grid (>= 1 '
+    'level) of a 10-level (thorough: 13-level) menu reaching below, into '
     'and above every knot range, through the real compute_rise_curve.  '
     'Oracle: W[j] - W[i] = Gauss-Legendre integral of the callable itself '
     'for all i < j; equal values at shared levels after refinement; '
@@ -77,7 +77,7 @@ def BOUND(tier):
             'sub-grid of a %d-level menu (%d grids) at function level; %d '
             'datasets x %d parameter files x 2 output forms at command level'
             % (len(SY_SETS), len(GRIDS), len(MENU[tier]),
-               2 ** len(MENU[tier]) - len(MENU[tier]) - 1,
+               2 ** len(MENU[tier]) - 1,
                len(simdata.WORDS), len(SY_SETS)))
 
 
@@ -106,7 +106,7 @@ def spaces(tier):
         return {'kind': 'cli', 'dataset': which, 'sy': sy,
                 'observations': obs}
     menu = MENU[tier]
-    masks = [m for m in range(1 << len(menu)) if bin(m).count('1') >= 2]
+    masks = [m for m in range(1 << len(menu)) if m]   # one level and more
 
     def decode_sub(i):
         sy = SY_SETS[i % len(SY_SETS)]
